@@ -166,6 +166,8 @@ struct Case {
     /// while the command runs, every thread it started is hit by a signal whose handler does not
     /// restart system calls: a blocked read/write of the runner fails with EINTR
     signal_storm: bool,
+    /// the command gets 256 KiB of `stdin_text` that the child never reads (more than a pipe holds)
+    big_stdin: bool,
 }
 
 // ---------------------------------------------------------------------------
@@ -221,7 +223,7 @@ fn add_multibyte(rng: &mut Rng, sp: &mut StreamPlan) {
     if n < 8 {
         return;
     }
-    let chars: [&[u8]; 3] = ["é".as_bytes(), "€".as_bytes(), "😀".as_bytes()];
+    let chars: [&[u8]; 6] = ["é".as_bytes(), "€".as_bytes(), "😀".as_bytes(), "\u{feff}".as_bytes(), "\u{2028}".as_bytes(), "\u{85}".as_bytes()];
     for _ in 0..rng.range(1, 3) {
         let c = *rng.pick(&chars);
         let at = match rng.below(4) {
@@ -286,7 +288,7 @@ fn tame_delays(case: &mut Case) {
 }
 
 fn base_case(plan: Plan, po: Pol, pe: Pol, cap: u32, label: &str) -> Case {
-    Case { plan, po, pe, cap, poll_ms: 10, timeout_ms: None, default_timeout_ms: 900_000, delays: Vec::new(), label: label.to_string(), late_exit_ms: None, signal_storm: false }
+    Case { plan, po, pe, cap, poll_ms: 10, timeout_ms: None, default_timeout_ms: 900_000, delays: Vec::new(), label: label.to_string(), late_exit_ms: None, signal_storm: false, big_stdin: false }
 }
 
 fn one_write(n: u64) -> StreamPlan {
@@ -294,7 +296,8 @@ fn one_write(n: u64) -> StreamPlan {
 }
 
 const MATRIX: u64 = 9 * 3 * 5;
-const DIRECTED: u64 = 48 + LATE_EXIT + STORM;
+const DIRECTED: u64 = 48 + LATE_EXIT + STORM + EXTRA;
+const EXTRA: u64 = 8;
 const LATE_EXIT: u64 = 8;
 const STORM: u64 = 6;
 pub const MATRIX_STAGE_COUNT: u64 = MATRIX + DIRECTED;
@@ -322,6 +325,42 @@ fn matrix_case(rng: &mut Rng, idx: u64) -> Case {
         let mut c = base_case(plan, po, pe, cap, &format!("matrix.{}", ["under", "at", "over"][rel as usize]));
         c.poll_ms = rng.range(1, 20) as u32;
         return c;
+    }
+    if idx >= MATRIX + 48 + LATE_EXIT + STORM {
+        let j = idx - MATRIX - 48 - LATE_EXIT - STORM;
+        return match j {
+            // more standard input than a pipe holds, never read: the deadline still applies
+            0 | 1 => {
+                let mut c = base_case(Plan { out: one_write(10), err: one_write(10), linger_ms: 0, end: End::Hang }, Pol::Capture, Pol::Capture, 4096, "directed.unread_stdin_and_hang");
+                c.timeout_ms = Some([200u64, 500][j as usize]);
+                c.big_stdin = true;
+                c
+            }
+            2 | 3 => {
+                let timeout = [300u64, 600][(j - 2) as usize];
+                let mut c = base_case(Plan { out: one_write(10), err: one_write(10), linger_ms: timeout + 1200, end: End::Exit(0) }, Pol::Capture, Pol::Null, 4096, "directed.unread_stdin_and_late_exit");
+                c.timeout_ms = Some(timeout);
+                c.late_exit_ms = Some(1200);
+                c.big_stdin = true;
+                c
+            }
+            // the capture limit still applies while the writer is blocked
+            4 => {
+                let mut c = base_case(Plan { out: one_write(30_000), err: one_write(10), linger_ms: 800, end: End::Exit(0) }, Pol::Capture, Pol::Capture, 4096, "directed.unread_stdin_and_overflow");
+                c.big_stdin = true;
+                c
+            }
+            // streams that begin with characters some text layers drop: byte order mark, line separator
+            5 | 6 | 7 => {
+                let lead: &[u8] = [&b"\xef\xbb\xbf"[..], "\u{2028}".as_bytes(), "\u{feff}\u{feff}".as_bytes()][(j - 5) as usize];
+                let mut out = one_write(100);
+                out.patches.push((0, lead.to_vec()));
+                let mut err = one_write(100);
+                err.patches.push((0, lead.to_vec()));
+                base_case(Plan { out, err, linger_ms: 0, end: End::Exit(0) }, Pol::Capture, Pol::Capture, 4096, "directed.leading_special_character")
+            }
+            _ => unreachable!(),
+        };
     }
     if idx >= MATRIX + 48 + LATE_EXIT {
         // A read of a captured stream that fails while the child still has output to send must end
@@ -502,7 +541,12 @@ fn random_case(rng: &mut Rng) -> Case {
 fn script_of(vhelper: &str, plan_path: &str, c: &Case, style: usize) -> String {
     let mut s = String::new();
     s.push_str(&format!("make c get command({})\nc.arg(\"emit\")\nc.arg({})\n", lit(vhelper), lit(plan_path)));
-    s.push_str(&format!("c.stdout_{}()\nc.stderr_{}()\nc.stdin_null()\n", c.po.name(), c.pe.name()));
+    s.push_str(&format!("c.stdout_{}()\nc.stderr_{}()\n", c.po.name(), c.pe.name()));
+    if c.big_stdin {
+        s.push_str("make zz_t get \"0123456789abcdef\"\nmake zz_k get 0\njasi (zz_k small pass 14) start\n    zz_t get zz_t add zz_t\n    zz_k get zz_k add 1\nend\nc.stdin_text(zz_t)\n");
+    } else {
+        s.push_str("c.stdin_null()\n");
+    }
     if let Some(t) = c.timeout_ms {
         s.push_str(&format!("c.timeout_ms({t})\n"));
     }
